@@ -371,6 +371,34 @@ Inductive gpath (g : graph) : Z -> Z -> Q -> Prop :=
 | gp_nil : forall n, gpath g n n 0%Q
 | gp_step : forall a b t w d, In (a, b, w) (gedges g) -> gpath g b t d -> gpath g a t (w + d)%Q.
 
+(* the domain of the theorems, decided by computation (soundness: Proofs/MorphP6.v) *)
+Fixpoint rootedb (fuel : nat) (c : cell) (s : seg) : bool :=
+  match sparent s with
+  | None => true
+  | Some (p, _) =>
+    match fuel with
+    | O => false
+    | S k => match find_seg c p with Some ps => rootedb k c ps | None => false end
+    end
+  end.
+
+Definition parentless (s : seg) : bool := match sparent s with None => true | Some _ => false end.
+
+Fixpoint Zlist_eqb (a b : list Z) : bool :=
+  match a, b with
+  | [], [] => true
+  | x :: a', y :: b' => (x =? y) && Zlist_eqb a' b'
+  | _, _ => false
+  end.
+
+Definition wfb (c : cell) : bool :=
+  Zlist_eqb (dedup (ids c)) (ids c)
+  && (length (filter parentless c) =? 1)%nat
+  && forallb (rootedb (pred (length c)) c) c.
+
+Definition root_has_proxb (c : cell) : bool :=
+  forallb (fun s => match sparent s, sprox s with None, None => false | _, _ => true end) c.
+
 (* =========================================================================================
    Correspondence: one record of implementation observations per case; the model recomputes every
    component and the kernel reports the numbers of the components that differ.
@@ -479,13 +507,16 @@ Definition obs_diff (m i : obs) : list nat :=
                | _, _ => false
                end))%list.
 
+(* component 12: the case lies outside the domain of the theorems (wf, root_has_prox) *)
+Definition domain_flag (c : cell) : list nat := flag 12 (wfb c && root_has_proxb c).
+
 Definition case13 := (cell * obs)%type.
 
 Fixpoint mismatches_from (n : nat) (l : list case13) : list (nat * list nat) :=
   match l with
   | [] => []
   | (c, i) :: r =>
-    match obs_diff (model_obs c i) i with
+    match (obs_diff (model_obs c i) i ++ domain_flag c)%list with
     | [] => mismatches_from (S n) r
     | d => (n, d) :: mismatches_from (S n) r
     end
